@@ -15,6 +15,13 @@ use std::time::Instant;
 
 pub const VERIF_DIR: &str = "/verif";
 
+/// Where evidence and replay files are written. `/verif` unless `GAIV_OUT_DIR` is set
+/// (used only by the sensitivity tooling, which runs the checks against a scratch
+/// binary built from a seeded faulty change and must not overwrite real evidence).
+pub fn out_dir() -> PathBuf {
+    std::env::var_os("GAIV_OUT_DIR").map(PathBuf::from).unwrap_or_else(|| PathBuf::from(VERIF_DIR))
+}
+
 #[derive(Debug, Clone, Serialize)]
 pub struct Violation {
     /// root-cause signature (matched against known_findings.json)
@@ -263,7 +270,7 @@ pub struct Failure<C> {
 }
 
 pub fn replay_path(id: &str, hash: &str) -> PathBuf {
-    Path::new(VERIF_DIR).join("replays").join(id).join(format!("{}.json", hash))
+    out_dir().join("replays").join(id).join(format!("{}.json", hash))
 }
 
 fn write_replay<C: Serialize>(id: &str, f: &Failure<C>) -> PathBuf {
@@ -490,7 +497,7 @@ where
         "wall_s": wall,
         "violations": by_sig.len(),
     });
-    let evp = Path::new(VERIF_DIR).join("evidence").join(format!("{}.json", spec.id));
+    let evp = out_dir().join("evidence").join(format!("{}.json", spec.id));
     let _ = std::fs::create_dir_all(evp.parent().unwrap());
     let _ = std::fs::write(&evp, serde_json::to_vec_pretty(&ev).unwrap());
 
